@@ -322,6 +322,8 @@ impl Index for HnswIndex {
             {
                 let prepared = self.prepare_vector(vector);
                 vectors[pos] = (id, prepared);
+                // Re-inserting a deleted identifier makes it live again
+                self.tombstones.write().remove(&id);
             } else {
                 let prepared = self.prepare_vector(vector);
                 vectors.push((id, prepared));
@@ -371,6 +373,8 @@ impl Index for HnswIndex {
                 {
                     let prepared = self.prepare_vector(vector);
                     vectors[pos] = (*id, prepared);
+                    // Re-inserting a deleted identifier makes it live again
+                    self.tombstones.write().remove(id);
                 } else {
                     let prepared = self.prepare_vector(vector);
                     vectors.push((*id, prepared));
